@@ -702,6 +702,9 @@ type polygonCase struct {
 	KnownInside bool
 	Kind        string
 	Probes      []gen.P
+	// ViaInvert: the two-shell polygon A ∪ B is obtained as the complement of
+	// (sphere minus A) with hole B: PolygonFromLoops({reversed A, B}) then Invert()
+	ViaInvert bool
 }
 
 func genPolygonCase(t *rapid.T) polygonCase {
@@ -727,6 +730,9 @@ func genPolygonCase(t *rapid.T) polygonCase {
 		pc.Known = l1.Inside
 		pc.KnownInside = true
 		pc.Kind = "two-shells"
+		if rapid.Bool().Draw(t, "viainvert") {
+			pc.ViaInvert, pc.Kind = true, "two-shells-via-invert"
+		}
 	default:
 		// a single pole-related loop as a polygon
 		var l gen.LoopCase
@@ -766,10 +772,28 @@ func checkPolygonBounds(c polygonCase) ev.Outcome {
 		ls = append(ls, s2.LoopFromPoints(gen.Pts(l)))
 		chains = append(chains, vecs(l))
 	}
+	if c.ViaInvert {
+		if len(c.Loops) != 2 {
+			o.Skip = true
+			return o
+		}
+		pts := gen.Pts(c.Loops[0])
+		for i, j := 0, len(pts)-1; i < j; i, j = i+1, j-1 {
+			pts[i], pts[j] = pts[j], pts[i]
+		}
+		ls[0] = s2.LoopFromPoints(pts)
+	}
 	pg := s2.PolygonFromLoops(ls)
 	if pg.Validate() != nil {
 		o.Skip = true
 		return o
+	}
+	if c.ViaInvert {
+		pg.Invert()
+		if pg.Validate() != nil {
+			o.Err = fmt.Sprintf("Invert() of a valid polygon (complement of one shell, with a hole) is not valid: %v", pg.Validate())
+			return o
+		}
 	}
 	b := regionBounds(pg)
 	for _, ch := range chains {
